@@ -16,7 +16,8 @@ WATCHDOG_S = 20
 BYTE_FAULTS = ['flip-bit', 'delete-range', 'insert-bytes', 'duplicate-range', 'truncate', 'splice', 'replace-byte', 'swap-ranges']
 TOKEN_FAULTS = ['delete-event-attribute', 'bad-object-value', 'delete-attribute', 'empty-attribute', 'retype-attribute', 'rename-element', 'remove-child', 'duplicate-child',
                 'wrong-version', 'undefined-reference', 'remove-namespace', 'text-into-element', 'huge-number', 'negative-number',
-                'move-element', 'entity-reference', 'entity-reference', 'cdata-section', 'comment-inside', 'pi-inside']
+                'move-element', 'entity-reference', 'entity-reference', 'cdata-section', 'comment-inside', 'pi-inside',
+                'redefine-ontology', 'redefine-ontology']
 
 
 _CORPUS = []
@@ -140,6 +141,43 @@ def mutate_tokens(rng, data, fault):
         if fault == 'entity-reference':
             out = '<!DOCTYPE edxml [<!ENTITY foo "bar"><!ENTITY big "&foo;&foo;&foo;">]>' + out
         return out.encode('utf-8')
+    if fault == 'redefine-ontology':
+        # the definitions arrive a second time, one of them without one of its attributes (or with another value), under a
+        # higher, lower or the same version: an upgrade, a stale copy, or a conflict
+        import copy
+        onts = [x for x in els if local_name(x.tag) == 'ontology']
+        if not onts:
+            return data
+        o = rng.choice(onts)
+        c = copy.deepcopy(o)
+        versioned = [x for x in c.iter() if isinstance(x.tag, str) and x.get('version') is not None]
+        if versioned:
+            optional = ('regex-hard', 'regex-soft', 'xref', 'unit-name', 'unit-symbol', 'fuzzy-matching', 'prefix-radix', 'compress',
+                        'date-acquired', 'merge', 'similar', 'timespan-start', 'timespan-end', 'event-version', 'sequence')
+            with_optional = [x for x in versioned if any(k in x.attrib for k in optional)]
+            top = rng.choice(with_optional) if with_optional and rng.random() < 0.6 else rng.choice(versioned)
+            cands = [x for x in top.iter() if isinstance(x.tag, str) and len(x.attrib)]
+            x = rng.choice(cands)
+            keys = [k for k in sorted(x.attrib) if k not in ('name', 'uri', 'version')] or sorted(x.attrib)
+            k = rng.choice(keys)
+            if top in with_optional and rng.random() < 0.7:
+                # an attribute the schema does not require, of the definition itself
+                x = top
+                k = rng.choice([k for k in sorted(x.attrib) if k in optional])
+            if rng.random() < 0.7:
+                del x.attrib[k]
+            else:
+                x.set(k, rng.choice(['', 'x', 'a|b', 'true', '7']))
+            try:
+                v = int(top.get('version'))
+                top.set('version', str(max(0, v + rng.choice([1, 1, 0, -1]))))
+            except ValueError:
+                pass
+        if rng.random() < 0.5:
+            o.addnext(c)
+        else:
+            o.addprevious(c)
+        return etree.tostring(root)
     with_attr = [e for e in els if len(e.attrib)]
     e = rng.choice(els)
     if fault == 'delete-event-attribute':
@@ -275,7 +313,7 @@ def run(data, mode, cuts, validate=True):
     return {'outcome': outcome, 'events': delivered['events'], 'ontologies': delivered['ontologies'], 'invalid': delivered['invalid']}
 
 
-def run_many(docs, mode):
+def run_many(docs, mode, clear=False):
     """Several documents through ONE parser instance (close() makes a parser reusable)."""
     from edxml import EDXMLPullParser, EDXMLPushParser
     from edxml.error import EDXMLError
@@ -298,7 +336,10 @@ def run_many(docs, mode):
     old = signal.signal(signal.SIGALRM, _alarm)
     signal.alarm(WATCHDOG_S)
     try:
-        for data in docs:
+        for k, data in enumerate(docs):
+            if clear and k:
+                # the application empties the parser's ontology before it gives the parser the next document
+                p.get_ontology().clear()
             if mode == 'pull':
                 p.parse(io.BytesIO(data))
             else:
@@ -354,7 +395,11 @@ class C15(Property):
             yield {'kind': 'items', 'c14': {'items': items, 'regs': P.gen_regs(rng), 'overridden': True, 'validate': True,
                                             'mode': rng.choice(['pull', 'push']), 'cutseed': rng.randint(0, 10 ** 6), 'version': '3.0.0'}}
         for _ in range(40 if tier == 'quick' else 600):
-            yield {'kind': 'reuse', 'maxlens': [rng.choice([10, 3, 5, 1]) for _ in range(rng.randint(2, 3))], 'seed': rng.randint(0, 10 ** 9)}
+            yield {'kind': 'reuse', 'maxlens': [rng.choice([10, 3, 5, 1]) for _ in range(rng.randint(2, 3))], 'seed': rng.randint(0, 10 ** 9),
+                   'clear': rng.random() < 0.5}
+        for _ in range(60 if tier == 'quick' else 1500):
+            # definitions that arrive a second time in another form
+            yield {'kind': 'fuzz', 'doc': ['typed', rng.randint(0, 10 ** 6)], 'faults': ['redefine-ontology'], 'seed': rng.randint(0, 10 ** 9)}
         n = 500 if tier == 'quick' else 20000
         n_corpus = max(1, len(corpus_docs()))
         for i in range(n):
@@ -386,7 +431,7 @@ class C15(Property):
             return {'err': o['err'], 'delivered': [c for c in o['log'] if c[0] in ('h', 'fb')]}
         if case['kind'] == 'reuse':
             # (a push parser cannot be fed a second document: its XML parser is not renewed by close())
-            r = run_many(self.reuse_docs(case), 'pull')
+            r = run_many(self.reuse_docs(case), 'pull', case.get('clear', False))
             return {'pull': r, 'push': r}
         data, cuts = self.mutated(case)
         return {'pull': run(data, 'pull', []), 'push': run(data, 'push', cuts)}
@@ -417,7 +462,7 @@ class C15(Property):
         for mode in ('pull', 'push'):
             r = obs[mode]
             what = ('%s parser, document %s with faults %s' % (mode, case['doc'], case['faults'])) if case['kind'] == 'fuzz' else \
-                ('one %s parser instance fed documents with string lengths %s' % (mode, case['maxlens']))
+                ('one %s parser instance fed documents with string lengths %s%s' % (mode, case['maxlens'], ', its ontology cleared in between' if case.get('clear') else ''))
             if r['outcome'] == 'hang':
                 return '%s: no result after %d seconds' % (what, WATCHDOG_S)
             if r['outcome'].startswith('foreign:'):
